@@ -378,7 +378,12 @@ Definition obs_core (o : tokobs) : bool * text * text :=
     the case's symbol table, the position of the stream afterwards; or the exception raised *)
 Inductive parse_obs :=
 | PObs (frs : list fragment) (resolved : text) (pos : nat)
-| PExn (e : exn).
+| PExn (e : exn)
+(** end to end ([KFile]): the contents of the file created by  file f.txt = RICH-STRING  and whether
+    the instruction on the following line was executed too; or a SYNTAX_ERROR report and whether it
+    names the line of that instruction *)
+| PFile (contents : text) (next_ok : bool)
+| PSyntax (line_ok : bool).
 
 Inductive list_obs :=
 | LObs (els : list element) (resolved : list text) (pos : nat)
@@ -391,7 +396,10 @@ Definition element_eqb (a b : element) : bool :=
   | _, _ => false
   end.
 
-Inductive pkind := KString | KRich.
+Inductive pkind := KString | KRich | KFile.
+
+(** [f.txt = ], what precedes the rich string of the end-to-end cases *)
+Definition file_arg_prefix : text := [102; 46; 116; 120; 116; 32; 61; 32].
 
 Inductive case :=
 (** the whole token sequence of a source; [Some (lead, items, u)]: the source was written from
@@ -462,24 +470,32 @@ Definition check_case (c : case) : bool * bool :=
       let al := oracle_fn o in
       let model :=
         do ts <- ts_init src;
-        do r <- (match k with KString => parse_string al ts | KRich => rich_string_parse al ts end);
+        do r <- (match k with
+                 | KString => parse_string al ts
+                 | KRich => rich_string_parse al ts
+                 | KFile => do r1 <- ts_consume ts; do r2 <- ts_consume (snd r1); rich_string_parse al (snd r2)
+                 end);
         Ok (fst r, ts_position (snd r)) in
       ( oracle_covers o (src ++ env_chars e) &&
         match model, obs with
         | Ok (frs, pos), PObs frs' resolved pos' =>
             list_eqb fragment_eqb frs frs' && Nat.eqb pos pos' && option_eqb text_eqb (resolve e frs') (Some resolved)
         | Raise ex, PExn ex' => exn_eqb ex ex'
+        | Ok (frs, _), PFile contents _ => option_eqb text_eqb (resolve e frs) (Some contents)
+        | Raise _, PSyntax _ => true
         | _, _ => false
         end &&
+        match k, obs with KFile, PObs _ _ _ | KFile, PExn _ => false | KFile, _ => true | _, PFile _ _ | _, PSyntax _ => false | _, _ => true end &&
         match st with
         | None => true
         | Some (lead, r) =>
-            text_eqb src (lead ++ render_rich r) && forallb is_sep lead && wf_rich r &&
+            text_eqb src (lead ++ render_rich r) &&
+            (match k with KFile => text_eqb lead file_arg_prefix | _ => forallb is_sep lead end) && wf_rich r &&
             match k, r with
             | KString, RPlain _ _ => true
             | KString, _ => false
-            | KRich, RPlain ((t, _) :: _) _ => plain_for_rich t
-            | KRich, _ => true
+            | KRich, RPlain ((t, _) :: _) _ | KFile, RPlain ((t, _) :: _) _ => plain_for_rich t
+            | KRich, _ | KFile, _ => true
             end
         end,
         match st with
@@ -487,8 +503,11 @@ Definition check_case (c : case) : bool * bool :=
         | Some (lead, r) =>
             match expect_rich lead r, obs with
             | XFail, PExn _ => true
+            | XFail, PSyntax line_ok => line_ok
             | XTok t lo hi, PObs _ resolved pos => denotes al e t resolved && in_range lo hi pos
             | XText s lo hi, PObs _ resolved pos => option_eqb text_eqb (subst al e s) (Some resolved) && in_range lo hi pos
+            | XTok t _ _, PFile contents next_ok => denotes al e t contents && next_ok
+            | XText s _ _, PFile contents next_ok => option_eqb text_eqb (subst al e s) (Some contents) && next_ok
             | _, _ => false
             end
         end )
